@@ -237,13 +237,30 @@ BadAllocRows(u) ==
                    form |-> "m", rel |-> "none", k |-> 0, leak |-> {}, pi |-> <<>>]>>] :
         t \in Types, rc \in {<<1, 2>>, <<2, 1>>, <<0, 1>>, <<1, 0>>, <<2, 3>>, <<3, 2>>}}
 
+(* the documented order of calls: the frequency vector must be valid and   *)
+(* given before solve                                                      *)
+ProtocolRow(t, r, c) ==
+    LET rec  == TLCEval(Recipe(t, r, c, 0))
+        adds == TLCEval([i \in 1..Len(rec) |-> Plain(t, r, c, rec[i])])
+    IN [name |-> Name("c01-protocol", t, r, c, 0),
+        steps |-> <<Life(t, r, c, 2, "m", "nosetf", 0, adds, <<>>),
+                    Op("solve"), [op |-> "setf", valid |-> 0], Op("solve"),
+                    Op("addcal"), [op |-> "setf", valid |-> 1]>>
+                  \o adds
+                  \o <<[op |-> "setf", valid |-> 0], Op("solve"), Op("addcal"),
+                       Apply(1), Op("saveeq")>>]
+
+ProtocolRows(u) ==
+    {ProtocolRow(x[1], x[2], x[3]) :
+        x \in {y \in Types \X (1..2) \X (1..2) : DimsOK(y[1], y[2], y[3])}}
+
 C01Rows(u) ==
     UNION {{C01Row(x[1], x[2], x[3], v) : v \in 0..(NVar - 1)} :
            x \in {y \in Types \X (1..MaxDim) \X (1..MaxDim) : DimsOK(y[1], y[2], y[3])}}
 
 (* (the dummy parameter keeps TLC from pre-evaluating the tables that are  *)
 (* not asked for)                                                         *)
-C01Table(u) == C01Rows(u) \cup BadAllocRows(u)
+C01Table(u) == C01Rows(u) \cup BadAllocRows(u) \cup ProtocolRows(u)
 
 -----------------------------------------------------------------------------
 (* C17 *)
